@@ -311,6 +311,10 @@ def build(node, M):
         return tuple(build(x, M) for x in node[1])
     if k == 'dict':
         return {build(a, M): build(b, M) for a, b in node[1]}
+    if k == 'shared':
+        # ONE object referenced from several places of the value (a DAG, not a tree): equal parts need not be copies
+        x = build(node[2], M)
+        return {'pair': (x, x), 'triple': [('a', x, x)], 'mixed': ([x], 1.5, x), 'dictvals': ({'k': x}, x)}[node[1]]
     raise ValueError(node)
 
 
@@ -381,6 +385,11 @@ def enum_infer_long(tier):
             yield {'pv': lists, 'off': 0}                                               # (saiai...ai)
         mixed = ['tuple', [['w', 'y', 5]] + [['int', i % 3] for i in range(total - 4)] + [['w', 't', 2**40]]]
         yield {'pv': mixed, 'off': 1}
+    # the same container object used twice inside one value
+    for shape in ('pair', 'triple', 'mixed', 'dictvals'):
+        for inner in (['list', [['int', 0], ['int', 0]]], ['dict', [[['str', 'a'], ['int', 1]]]], ['list', []],
+                      ['tuple', [['str', 'x'], ['list', [['int', 5]]]]]):
+            yield {'pv': ['shared', shape, inner], 'off': 2}
     # containers that are big in BYTES (an array may hold up to 2^26 bytes of element data): blobs and long lists around
     # 64 KiB, alone, as a dict value and inside a heterogeneous list
     for nbytes in (65535, 65536, 65537, 70001):
